@@ -29,7 +29,8 @@ META = {
             'reference run of a separately instrumented endpoint); FSock transport semantics (persistent failures; buffered '
             'input stays readable); one-record-per-socket-write (no partial sends in the data scripts); recordSize >= 2.  '
             'The two statements that were _refuted on the original tree (swallowed send failure, write after orderly close) '
-            'are full theorems since the fixes 0ab9df1 and 8b57b65 in /repo.',
+            'are full theorems since the fixes 0ab9df1 and 8b57b65 in /repo; so are exception_closes and '
+            'post_handshake_fault_contained since fa8f243 (public post-handshake calls close the connection on failure).',
     'technique': 'Rocq/Coq proof over hand-written state machine + live correspondence (vm_compute) + direct property oracle',
 }
 IMPORTS = ['Model.C17_Lifecycle', 'Model.C17_Sessions', 'Model.C17_Check']
